@@ -13,6 +13,7 @@ par() { xargs -P $JOBS -I{} sh -c "timeout 1800 coqc -Q $T HS {} || { echo FAILE
 T0=$(date +%s); stage() { echo "[build_menus] $1 done at +$(( $(date +%s) - T0 ))s" >&2; }
 cc MenuLib.v
 cc LinNF.v
+cc MenuCV.v      # needs Bracket.vo and SchedCV.vo (not built here)
 ls Menu07.v Menu12.v Menu07T.v Menu12T.v | par
 ls M07_[0-9][0-9].v M12_[0-9][0-9].v | par
 stage "2-thread shards"
